@@ -21,7 +21,7 @@
        only with the note notified; mode at return == mode at entry;
      - inside every condition callback: no other thread is inside a write section, and the
        mutex word shows a holder.  */
-#include "common.h"
+#include "sc.h"
 
 #define NV 3
 #define MAXW 5
